@@ -16,6 +16,7 @@ import asyncio
 import itertools
 import json
 import logging
+import struct
 import os
 
 from lib.verif import coq_list, coq_z
@@ -249,6 +250,7 @@ class Mgr:
         self.sent = []               # (handle, abstract frame) in emission order
         self.tasks = {}              # wid -> task
         self.escaped = []            # exceptions that escaped on_pdu (event index, type name)
+        self.send_errors = []        # frames that could not be built (reported by the oracle)
         self.peer_ok = True          # the peer has followed the rules under which the property is claimed
         self.unmodelled = False      # an interleaving the one-step-per-event model does not represent
         for psm in cfg.get('le', []):
@@ -302,9 +304,13 @@ class Mgr:
     def ev_grant(self, uid, credits):
         from bumble import l2cap
         c = self.chans[uid]
-        c.send_control_frame(l2cap.L2CAP_LE_Flow_Control_Credit(
-            identifier=self.mgr.next_identifier(c.connection), cid=c.source_cid, credits=credits))
         self.events.append(['Grant', uid, credits])
+        try:
+            c.send_control_frame(l2cap.L2CAP_LE_Flow_Control_Credit(
+                identifier=self.mgr.next_identifier(c.connection), cid=c.source_cid, credits=credits))
+        except Exception as e:
+            return type(e).__name__         # the credit frame could not be sent
+        return None
 
     def ev_recv(self, h, cid, pdu):
         a = frame_to_abs(cid, pdu)
@@ -322,6 +328,9 @@ class Mgr:
             self.mgr.on_pdu(self.conn(h), cid, pdu)
         except Exception as e:
             self.escaped.append([len(self.events) - 1, type(e).__name__])
+            if isinstance(e, (struct.error, OverflowError)):
+                # a frame the handler wanted to send could not be serialised
+                self.send_errors.append(f'handling {a} raised {type(e).__name__}: {e}')
         return True
 
     def peer_follows_rules(self, h, a):
@@ -535,6 +544,7 @@ class World:
                 await self.settle()
                 return
             c = M.chans[uid]
+            close_ok = ''
             if k in ('write', 'grant') and not hasattr(c, 'drained'):
                 self.skipped += 1
                 await self.settle()
@@ -544,6 +554,9 @@ class World:
                 self.nw[m] += 1
                 h = c.connection.handle
                 self.task_info[(m, w)] = ['close', h, self.epoch.get((m, h), 0), uid]
+                # disconnect() of an open channel of a live connection has no reason to fail locally
+                close_ok = c.state.name if (c.state.name in ('CONNECTED', 'OPEN')
+                                            and M.conns.get(h) is c.connection) else ''
                 M.ev_close(w, uid)
             elif k == 'abort':
                 M.ev_abort(uid)
@@ -554,8 +567,17 @@ class World:
                     self.skipped += 1       # a dead connection object cannot send
                     await self.settle()
                     return
-                M.ev_grant(uid, op[3])
+                err = M.ev_grant(uid, op[3])
+                if err:
+                    self.violations.append(('call-failed-locally',
+                                            f'mgr{m}: sending credits on chan{uid} raised {err} on a live connection'))
             await self.after_event(m)
+            if k == 'close' and close_ok:
+                t = M.tasks[w]
+                if t.done() and not t.cancelled() and t.exception() is not None:
+                    self.violations.append(('call-failed-locally',
+                                            f'mgr{m}: disconnect() of chan{uid} ({close_ok}) on a live connection raised '
+                                            f'{type(t.exception()).__name__} before the request was answered'))
         elif k == 'cancel':
             m, w = op[1], op[2]
             if w not in self.mgrs[m].tasks:
@@ -607,6 +629,12 @@ class World:
 
             def name(c):
                 return f'mgr{mi}.chan{uid_of.get(id(c), "?")}'
+
+            while M.send_errors:
+                bad.append(('call-failed-locally', f'mgr{mi}: {M.send_errors.pop(0)}'))
+            for h, ident in m.identifiers.items():
+                if not (isinstance(ident, int) and 1 <= ident <= 255):
+                    bad.append(('identifier-range', f'mgr{mi}: the signalling identifier of connection {h} is {ident!r}'))
 
             def current(c):
                 return M.conns.get(c.connection.handle) is c.connection
@@ -967,6 +995,10 @@ def regen(ctx):
     ctx.extra['c09_constants'] = consts
     ctx.extra['c09_per_connection_tables'] = tables
     ctx.extra['c09_disconnection_pops'] = pops
+    # ChannelManager.next_identifier as a Coq function (its own file: only Props/C09.v depends on it)
+    ctx.write_gen('C09Ident', '(* GENERATED by tools/translate/c09_tables.py identifier_function() from '
+                  'bumble/l2cap.py - do not edit *)\nFrom Coq Require Import ZArith.\nOpen Scope Z_scope.\n\n'
+                  + c09_tables.identifier_function(l2cap))
     # effect skeleton of the anchored functions (compared in Coq with Proofs/ChanMgrSkeleton.v)
     sk = c09_tables.skeleton(l2cap)
     gen = ('(* GENERATED by tools/translate/c09_tables.py skeleton() from bumble/l2cap.py - do not edit *)\n'
@@ -1338,6 +1370,9 @@ def run(ctx):
     for tag, topo, ltypes, ops in CORPUS + [t for t in _load_corpus() if t[0] not in builtin]:
         cases.append(run_fixed(topo, ltypes, ops, 'corpus ' + tag, with_audit=True))
     ctx.log(f'corpus: {len(cases)} histories run on the implementation')
+    for tag, topo, ltypes, ops in long_histories(not ctx.quick()):
+        cases.append(run_fixed(topo, ltypes, ops, tag, with_audit=True))
+    ctx.log(f'long single-link histories (identifier wrap-around) done: {len(cases)} histories')
     cases += gen_campaign(ctx, ctx.n(260, 9000))
     ctx.log(f'random campaign done: {len(cases)} histories')
     if not ctx.quick():
@@ -1347,6 +1382,62 @@ def run(ctx):
     ares = evaluate_cases(ctx, cases, aexprs)
     alloc_check(ctx, acases, ares)
     ctx.log('model evaluated and compared (histories and allocator cases)')
+
+
+def long_histories(thorough):
+    """Long histories on ONE link: open/close cycles that take the per-connection signalling identifier
+    through its wrap-around (one byte, 0 excluded) at least once on the initiating side, with the 256th
+    identifier landing on an open, on a close and on a credit / configuration frame (the three prefixes
+    shift the phase of the 3-identifiers-per-cycle pattern).  The oracle runs after every step, so every
+    cycle is checked: the open succeeds, disconnect() returns, the tables are empty again."""
+    out = []
+
+    def le(prefix, cycles, enh_every=0):
+        ops, uid = [], 0
+        for i in range(cycles):
+            if enh_every and i % enh_every == enh_every - 1:
+                ops += [['open', 0, 1, KIND_ENH, 0x80, 2, 0], ['flush'], ['close', 0, uid], ['close', 1, uid + 1], ['flush']]
+                uid += 2
+                continue
+            ops += [['open', 0, 1, KIND_LE, 0x80, 1, 0], ['flush']]
+            ops += [['grant', 0, uid, 1]] * (1 + (prefix if i == 0 else 0))
+            ops += [['close', 0 if i % 5 else 1, uid], ['flush']]     # every fifth channel is closed by the acceptor
+            uid += 1
+        return ops
+
+    def cl(prefix, cycles):
+        ops, uid = [], 0
+        for _ in range(prefix):       # a refused open costs the initiator one identifier
+            ops += [['open', 0, 1, KIND_CL, 0x1005, 1, 0], ['flush']]
+            uid += 1
+        for i in range(cycles):
+            ops += [['open', 0, 1, KIND_CL, 0x1001, 1, 0], ['flush'], ['close', 0, uid], ['flush']]
+            uid += 1
+        return ops
+
+    def wrap_kind(ops):
+        """which operation of manager 0 draws its 256th identifier"""
+        n = 0
+        for op in ops:
+            if op[0] not in ('open', 'grant', 'close') or op[1] != 0:
+                continue
+            kinds = ['open', 'config'] if (op[0] == 'open' and op[3] == KIND_CL and op[4] == 0x1001) else \
+                [{'grant': 'credit'}.get(op[0], op[0])]
+            for kd in kinds:
+                n += 1
+                if n == 256:
+                    return kd
+        return None
+
+    for fam, build, cycles, want in (('le', le, 115, ('open', 'close', 'credit')), ('cl', cl, 90, ('open', 'close', 'config'))):
+        for kd in want:         # one history per kind of operation the wrap lands on
+            prefix = next(p for p in range(12) if wrap_kind(build(p, cycles)) == kd)
+            out.append((f'long-{fam}-wrap-on-{kd}', 'pair', [fam], build(prefix, cycles)))
+    if thorough:
+        out.append(('long-le-twice', 'pair', ['le'], le(1, 230)))                # two wraps
+        out.append(('long-le-enh', 'pair', ['le'], le(0, 130, enh_every=4)))     # LE and enhanced opens mixed
+        out.append(('long-cl-twice', 'pair', ['cl'], cl(0, 180)))
+    return out
 
 
 def exhaustive_cases(ctx):
@@ -1376,7 +1467,8 @@ def exhaustive_cases(ctx):
 
 
 def search(ctx):
-    cases = gen_campaign(ctx, 600)
+    cases = [run_fixed(topo, ltypes, ops, tag, with_audit=True) for tag, topo, ltypes, ops in long_histories(False)]
+    cases += gen_campaign(ctx, 600)
     for case in cases:
         seen = set()
         for check, what in case.violations:
